@@ -92,6 +92,9 @@ type Info struct {
 	Value, IhrFee, FwdFee, Import uint64
 	Lt                            uint64
 	At                            uint32
+	// ImportPad adds that many leading zero bytes to the import fee: a non-minimal but schema-conformant
+	// VarUInteger 16 (len counts the bytes, the value simply has leading zeros).
+	ImportPad int
 }
 
 func (b *B) Info(i Info) *B {
@@ -99,7 +102,13 @@ func (b *B) Info(i Info) *B {
 	case 0:
 		b.Bit(false).Bit(i.IhrDisabled).Bit(i.Bounce).Bit(i.Bounced).Addr(i.Src).Addr(i.Dest).CC(i.Value).Grams(i.IhrFee).Grams(i.FwdFee).Uint(i.Lt, 64).Uint(uint64(i.At), 32)
 	case 1:
-		b.Uint(2, 2).Addr(i.Src).Addr(i.Dest).Grams(i.Import)
+		if i.ImportPad > 0 {
+			v := new(big.Int).SetUint64(i.Import)
+			l := (v.BitLen()+7)/8 + i.ImportPad
+			b.Uint(2, 2).Addr(i.Src).Addr(i.Dest).Uint(uint64(l), 4).BigUint(v, 8*l)
+		} else {
+			b.Uint(2, 2).Addr(i.Src).Addr(i.Dest).Grams(i.Import)
+		}
 	case 2:
 		b.Uint(3, 2).Addr(i.Src).Addr(i.Dest).Uint(i.Lt, 64).Uint(uint64(i.At), 32)
 	}
